@@ -315,23 +315,29 @@ class Canon:
         return sorted((u, v, k) for u, v, k in d["edges"])
 
 
+def producer(nodes, name):
+    """The model keeps one producer per array node; the real graph may have several in-edges after a clash (edge union).
+    Canonical choice: the predecessor op that writes this array's location, else the first predecessor, else none."""
+    nd = nodes[name]
+    preds = list(nd[2])
+    for q in preds:
+        qn = nodes.get(q)
+        if qn and qn[0] == "O" and (name, nd[1]) in qn[5]:
+            return q
+    return preds[0] if preds else None
+
+
+def normalized(nodes):
+    return {n: (("A", nd[1], producer(nodes, n)) if nd[0] == "A" else nd) for n, nd in nodes.items()}
+
+
 def dag_text(nodes):
-    """canonical node dict -> driver text (producer of an array node: the predecessor op that writes it, else the first)."""
+    """canonical node dict -> driver text"""
     items = []
     for name in sorted(nodes):
         nd = nodes[name]
         if nd[0] == "A":
-            preds = list(nd[2])
-            prod = "-"
-            for q in preds:
-                qn = nodes.get(q)
-                if qn and qn[0] == "O" and (name, nd[1]) in qn[5]:
-                    prod = q
-                    break
-            else:
-                if preds:
-                    prod = preds[0]
-            items.append("A,%s,%s,%s" % (name, nd[1], prod))
+            items.append("A,%s,%s,%s" % (name, nd[1], producer(nodes, name) or "-"))
         elif nd[0] == "O":
             items.append("O,%s,%s,%d,%s,%s,%s" % (name, nd[1], nd[2], "+".join(nd[3]) or "-",
                                                    "+".join("%s=%s" % kv for kv in nd[4]) or "-",
@@ -375,11 +381,11 @@ def nodes_match(model, real):
 
 
 def py_names_agree(dags):
-    """The classifier's own test on real canonical plans: equal name => equal node (attributes and in-edges)."""
+    """The classifier's own test on real canonical plans: equal name => equal node (attributes and producer)."""
     seen = {}
     clashes = []
     for d in dags:
-        for n, nd in d.items():
+        for n, nd in normalized(d).items():
             if n in seen and seen[n] != nd:
                 clashes.append(n)
             seen.setdefault(n, nd)
@@ -770,7 +776,7 @@ def execute(ctx, n_real, n_emu, n_proc_exec):
 
 
 def budgets(ctx):
-    return ctx.budget(3, 40), ctx.budget(26, 400), ctx.budget(1, 3)
+    return ctx.budget(3, 14), ctx.budget(26, 200), ctx.budget(1, 3)
 
 
 def corr(ctx):
@@ -811,3 +817,29 @@ def search(ctx):
             n += 1
     finally:
         runner.close()
+
+
+def replay(ctx, body):
+    """./check C20 --replay replays/C20-<seed>-failing-input.json : run the recorded history again in freshly spawned
+    processes and print every compute next to the NumPy reference."""
+    import numpy as np
+    common.use_repo()
+    case = body.get("case", {})
+    if "programs" not in case:
+        print("the replay file holds no history (broken obligation only); see 'no_longer_checks' in the file")
+        return
+    hist = {"style": case.get("style", "replay"), "procs": [{"program": prog} for prog in case["programs"]]}
+    runner = Runner(ctx)
+    try:
+        outs = runner.run_real([hist])[0]
+    finally:
+        runner.close()
+    ck = Checked(hist, outs, "spawn")
+    for p, o in enumerate(outs):
+        print("process %d: registers %s" % (p, [r.get("name", r.get("error")) for r in ck.regs[p]]))
+        for e in o["events"]:
+            if e.get("kind") == "compute":
+                want = [ck.ref[p][i]["val"].tolist() for i in e["regs"]]
+                got = e.get("values", e.get("error"))
+                print("  compute %s %s -> %s   NumPy: %s   %s" % (e["regs"], e["opts"], got, want, "ok" if got == want else "WRONG"))
+    oracle_history(ctx, ck)
